@@ -35,6 +35,8 @@ def corpus():
 
 
 ENGINES = [{"name": "pipe", "gen": gen, "corpus": corpus, "nontrivial": nontrivial, "classify": pipegen.classify, "shards": 12}]
+from props.e2e_common import e2e_engine
+ENGINES.append(e2e_engine("C03"))   # the same histories against a real pipeline over TCP/HTTP
 known_signature = known_signature_for({"K3"})
 LEVEL_TEXT = ("The property is REFUTED on the faithful model (C03_flap_refuted) and the failure class is characterised exactly: every failing (history, query) "
               "is an announcement after a session-wide withdrawal of a reused ingress id, and then the answer is 'withdrawn' with the new attributes "
